@@ -273,7 +273,7 @@ impl QGen {
       let rank = self.rank.clone();
       opts.push((
         1,
-        (sub.clone(), select(vec![0.5f64, 2.0, 10.0]), select(vec!["multiply", "sum", "replace", "max", "min"]), select(vec!["sum", "multiply", "max", "min", "avg"]), proptest::option::weighted(0.5, select(if rank.is_empty() { vec!["".to_string()] } else { rank.clone() })), proptest::option::weighted(0.4, select(vec!["exp", "gauss", "linear"])), proptest::option::weighted(0.3, c08::root_filter(&self.schema, 1)), proptest::option::weighted(0.2, select(vec![1.5f64, 4.0])), proptest::option::weighted(if self.min_score { 0.4 } else { 0.0 }, select(vec![0.31f64, 0.83, 1.71, 3.13])))
+        (sub.clone(), select(vec![0.5f64, 2.0, 10.0]), select(vec!["multiply", "sum", "replace", "max", "min"]), select(vec!["sum", "multiply", "max", "min", "avg"]), proptest::option::weighted(0.5, select(if rank.is_empty() { vec!["".to_string()] } else { rank.clone() })), proptest::option::weighted(0.4, select(vec!["exp", "gauss", "linear"])), proptest::option::weighted(0.3, c08::root_filter(&self.schema, 1)), proptest::option::weighted(0.2, select(vec![1.5f64, 4.0])), if self.min_score { proptest::option::weighted(0.4, select(vec![0.31f64, 0.83, 1.71, 3.13])).boxed() } else { Just(None::<f64>).boxed() })
           .prop_map(move |(q, w, bm, sm, fvf, decay, wfilter, max_boost, min_score)| {
             let mut wf = json!({"type": "weight", "weight": w});
             if let Some(f) = wfilter {
